@@ -2,7 +2,11 @@
 
 R1 encoder and decoder of a pair use the same codec constant; R2 encoders take
 their input through into_bitstr + bytestr; R3 invalid text yields nil."""
-from ..core import callee_of, expr_walk, expr_str, return_defs, short, const_str, MissingAnchor
+from ..core import callee_of, expr_walk, expr_str, return_defs, short, const_str, MissingAnchor, simplify
+from .. import inline
+
+_V = [None]
+BYTESTR = 'bitstr::Bitstr::bytestr'      # named in full: stays opaque in views
 
 EXPLANATION = (
     "The round trip of the data is a property of the base32/base64/z85 crates (trusted, not analysed). The wrappers can "
@@ -27,15 +31,16 @@ from ..core import expr_subst_args as subst
 
 def lib_calls(fx, fn, actuals=None, depth=0, seen=()):
     """list of (lib callee, [arg exprs with constants substituted]) reached from fn through base_ext helpers"""
-    f = fx.fns.get(fn)
+    f = _V[0](fn) if _V[0] is not None and fn in fx.fns else fx.fns.get(fn)
     out = []
     if f is None or depth > 4 or fn in seen:
         return out
+    spliced = set(getattr(f, 'inlined', []))
     for bb, t in f.calls():
         c = callee_of(t)
         if c is None:
             continue
-        args = [f.expr_of_operand(a) for a in t['args']]
+        args = [simplify(f.expr_of_operand(a)) for a in t['args']]
         if actuals is not None:
             args = [subst(a, actuals) for a in args]
         unres = t['func'].get('c', {}).get('fn', '')
@@ -45,7 +50,7 @@ def lib_calls(fx, fn, actuals=None, depth=0, seen=()):
             out.extend(lib_calls(fx, c, args, depth + 1, seen + (fn,)))
     # closures written inside this function (passed to helpers / map / ok_or_else)
     for c in sorted(fx.callgraph().get(fn, ())):
-        if c.startswith(fn + '::{closure') and c in fx.fns:
+        if c.startswith(fn + '::{closure') and c in fx.fns and c not in spliced:
             out.extend(lib_calls(fx, c, None, depth + 1, seen + (fn,)))
     return out
 
@@ -90,6 +95,7 @@ def run(rep, facts, tier):
     rep.rule('C18.R1', 'encoder and decoder of a word pair use the same crate and the same codec constant')
     rep.rule('C18.R2', 'encoders accept what >bitstr accepts: bytes come from into_bitstr + bytestr, no other path')
     rep.rule('C18.R3', 'invalid text yields nil: the library failure value reaches push_data(NIL) and an Ok return')
+    _V[0] = inline.View(fx)
     words = {w['name']: w for w in fx.registry()['words'] if w['in'] == 'base_ext::load'}
     pairs = sorted(n for n in words if n + '>' in words)
     rep.floor('C18 encoder/decoder word pairs', len(pairs), 4)
@@ -113,13 +119,13 @@ def run(rep, facts, tier):
                 'pair %s/%s> disagrees: encoder %s %s vs decoder %s %s' % (n, n, short(ue or ce), ke, short(ud or cd), kd),
                 enc, at_e)
         # R2 encoder input path
-        f = fx.fns.get(enc)
-        reach = fx.reachable_from([enc], stop={'bitstr_ext::into_bitstr'})
-        reach_fns = [r for r in reach if r.startswith('base_ext::')]
-        has_into = any(callee_of(t) == 'bitstr_ext::into_bitstr' for r in reach_fns for _, t in fx.fns[r].calls())
+        f = _V[0](enc)
+        units = [f] + [fx.fns[r] for r in fx.reachable_from([enc], stop={'bitstr_ext::into_bitstr'})
+                       if r.startswith('base_ext::') and r != enc and r in fx.fns and r not in getattr(f, 'inlined', [])]
+        has_into = any(callee_of(t) == 'bitstr_ext::into_bitstr' for u in units for _, t in u.calls())
         other_in = []
-        for r in reach_fns:
-            for _, t in fx.fns[r].calls():
+        for u in units:
+            for _, t in u.calls():
                 c = callee_of(t)
                 if c in ('state::State::pop_data', 'state::State::top_data', 'state::State::get_data') or \
                         (c or '').startswith('cell::Cell::to_') or c in ('cell::Cell::bitstr', 'cell::Cell::str', 'cell::Cell::vec'):
@@ -127,8 +133,8 @@ def run(rep, facts, tier):
         # bytes given to the library derive from bytestr(into_bitstr(..))
         bytes_ok = False
         for a in ae:
-            s = expr_str(a, -20)
-            if 'Bitstr::bytestr' in s and 'into_bitstr' in s:
+            s_ = expr_str(a, -30)
+            if 'Bitstr::bytestr' in s_ and 'into_bitstr' in s_:
                 bytes_ok = True
         okr2 = has_into and not other_in and bytes_ok
         rep.add('C18.R2', 'C18.R2:%s' % n, okr2,
@@ -137,17 +143,16 @@ def run(rep, facts, tier):
                 'accepts different inputs than >bitstr' % (n, has_into, other_in, bytes_ok), enc, f.j['span'] if f else None)
         # bytestr None -> ToBytestrError
         tb = False
-        for r in reach_fns:
-            for b2 in fx.fns[r].reachable_blocks():
-                for st in fx.fns[r].blocks[b2]['stmts']:
+        scan = list(units)
+        for u in list(units):
+            for c2 in fx.reachable_from([u.name]):
+                if '{closure' in c2 and c2 in fx.fns and c2.split('::{closure')[0] in [x.name for x in units] + list(getattr(f, 'inlined', [])):
+                    scan.append(fx.fns[c2])
+        for u in scan:
+            for b2 in u.reachable_blocks():
+                for st in u.blocks[b2]['stmts']:
                     if st['k'] == 'assign' and st['rv']['k'] == 'agg' and st['rv'].get('variant') == 'ToBytestrError':
                         tb = True
-            for c2 in fx.callgraph().get(r, ()):
-                if c2.startswith(r + '::{closure') and c2 in fx.fns:
-                    for b2 in fx.fns[c2].reachable_blocks():
-                        for st in fx.fns[c2].blocks[b2]['stmts']:
-                            if st['k'] == 'assign' and st['rv']['k'] == 'agg' and st['rv'].get('variant') == 'ToBytestrError':
-                                tb = True
         rep.add('C18.R2', 'C18.R2:%s:non-byte-length-error' % n, tb,
                 'a bit-string that is not a whole number of bytes yields ToBytestrError' if tb else 'no ToBytestrError mapping found', enc,
                 f.j['span'] if f else None, nontrivial=False)
@@ -156,13 +161,14 @@ def run(rep, facts, tier):
 
 
 def check_decoder(rep, fx, name, dec):
-    f = fx.fns.get(dec)
-    key = 'C18.R3:%s' % name
-    if f is None:
-        rep.add('C18.R3', key, False, 'decoder body not found', dec)
+    if fx.fns.get(dec) is None:
+        rep.add('C18.R3', 'C18.R3:%s' % name, False, 'decoder body not found', dec)
         return
-    # the word must not propagate an Err of its helper: no `?` on the helper result, and an else-arm pushing NIL
-    helpers = [(bb, t) for bb, t in f.calls() if callee_of(t) in fx.fns and callee_of(t).startswith('base_ext::')]
+    f = _V[0](dec)
+    key = 'C18.R3:%s' % name
+    # the word must not let the failure of its decoding step out as an error: no Err return of its own, every result goes
+    # through push_data, and one of the pushes is NIL
+    libs = [x for x in lib_calls(fx, dec) if direction(x[0], x[1]) == 'decode']
     nil_push = False
     for bb, t in f.calls():
         if callee_of(t) == 'state::State::push_data':
@@ -170,24 +176,25 @@ def check_decoder(rep, fx, name, dec):
             if any(isinstance(x, tuple) and x[0] == 'const' and (x[1].get('cpath') == 'cell::NIL' or 'Nil' in x[1].get('txt', '')) for x in expr_walk(a)) \
                     or any(isinstance(x, tuple) and x[0] == 'agg' and x[2] == 'Nil' for x in expr_walk(a)):
                 nil_push = True
-    errs = [d for (bb, i, cls, d) in return_defs(f) if cls == 'err']
-    fwd = [d for (bb, i, cls, d) in return_defs(f) if cls == 'forward']
+    errs = [d for (bb, i, cls, d) in return_defs(f, follow=True) if cls == 'err']
+    fwd = [d for (bb, i, cls, d) in return_defs(f, follow=True) if cls == 'forward']
     only_push = all(d == 'state::State::push_data' for d in fwd)
-    ok = bool(helpers) and nil_push and not errs and only_push
+    ok = bool(libs) and nil_push and not errs and only_push
     rep.add('C18.R3', key, ok,
-            'helper failure is caught (no `?`), the else arm pushes NIL and returns push_data\'s Ok' if ok else
-            'decoder %s can return an error or a non-nil value for invalid text (nil-push=%s, own Err returns=%d, forwards=%s)'
-            % (name, nil_push, len(errs), fwd), dec, f.j['span'])
-    # helper maps the library failure to Err
-    for bb, t in helpers:
-        h = fx.fns[callee_of(t)]
-        maps = False
+            'the failure of the decoding step is caught (no `?`), that arm pushes NIL and returns push_data\'s Ok' if ok else
+            'decoder %s can return an error or a non-nil value for invalid text (decode-call=%s, nil-push=%s, own Err returns=%d, forwards=%s)'
+            % (name, bool(libs), nil_push, len(errs), fwd), dec, f.j['span'])
+    # the library's failure value is turned into the Err that the word catches
+    units = [f] + [fx.fns[r] for r in fx.reachable_from([dec]) if r.startswith('base_ext::') and r != dec and r in fx.fns
+                   and r not in getattr(f, 'inlined', []) and '{closure' not in r]
+    maps = False
+    for h in units:
         for _, t2 in h.calls():
             c = callee_of(t2) or ''
             if c.endswith('::ok_or_else') or c.endswith('::map_err') or c.endswith('::ok_or'):
                 a = h.expr_of_operand(t2['args'][0])
                 if any(isinstance(x, tuple) and x[0] == 'call' and 'decode' in (x[1]).lower() for x in expr_walk(a)):
                     maps = True
-        rep.add('C18.R3', key + ':helper-maps-failure', maps,
-                'library None/Err is mapped to Err and propagated to the word, which turns it into nil' if maps else
-                'helper %s does not map the library failure value' % short(h.name), h.name, h.j['span'])
+    rep.add('C18.R3', key + ':helper-maps-failure', maps,
+            'library None/Err is mapped to Err and propagated to the word, which turns it into nil' if maps else
+            'the failure value of the library decode call is not mapped to an error on the way to %s' % name, dec, f.j['span'])
